@@ -41,13 +41,154 @@ def _super_init_kwargs(fn):
     return None
 
 
+def canon_body(fn):
+    """the statements of a def, one string per statement (nested blocks indented by two spaces), with
+    parameters (but `self`) renamed a0, a1, ... and local variables v0, v1, ... in order of first
+    binding, docstrings dropped and `raise X(...)` cut down to `raise X`: every statement is read; two
+    defs that differ in the names of their locals or in message texts only have the same canon"""
+    import copy
+    names = {}
+    params = [a.arg for a in fn.args.posonlyargs + fn.args.args + fn.args.kwonlyargs]
+    if fn.args.vararg:
+        params.append(fn.args.vararg.arg)
+    if fn.args.kwarg:
+        params.append(fn.args.kwarg.arg)
+    i = 0
+    for p in params:
+        if p == 'self':
+            continue
+        names[p] = 'a%d' % i
+        i += 1
+
+    class V(ast.NodeVisitor):
+        n = 0
+
+        def visit_Name(s, node):
+            if isinstance(node.ctx, ast.Store) and node.id not in names:
+                names[node.id] = 'v%d' % s.n
+                s.n += 1
+
+        def visit_ExceptHandler(s, node):
+            if node.name and node.name not in names:
+                names[node.name] = 'v%d' % s.n
+                s.n += 1
+            s.generic_visit(node)
+
+        def visit_Lambda(s, node):
+            pass
+    V().visit(fn)
+
+    class R(ast.NodeTransformer):
+        def visit_Name(s, node):
+            if node.id in names:
+                return ast.copy_location(ast.Name(id=names[node.id], ctx=node.ctx), node)
+            return node
+
+        def visit_ExceptHandler(s, node):
+            s.generic_visit(node)
+            if node.name in names:
+                node.name = names[node.name]
+            return node
+
+        def visit_Raise(s, node):
+            if isinstance(node.exc, ast.Call):
+                return ast.Raise(exc=node.exc.func, cause=None)
+            return node
+
+        def visit_Lambda(s, node):
+            return node
+    f2 = R().visit(copy.deepcopy(fn))
+    ast.fix_missing_locations(f2)
+    out = []
+
+    def flat(stmts, ind):
+        for st in stmts:
+            if isinstance(st, ast.Expr) and isinstance(st.value, ast.Constant) and isinstance(st.value.value, str):
+                continue
+            pre = '  ' * ind
+            if isinstance(st, ast.If):
+                out.append(pre + 'if ' + ast.unparse(st.test) + ':')
+                flat(st.body, ind + 1)
+                if st.orelse:
+                    out.append(pre + 'else:')
+                    flat(st.orelse, ind + 1)
+            elif isinstance(st, (ast.For, ast.While)):
+                if isinstance(st, ast.For):
+                    out.append(pre + 'for %s in %s:' % (ast.unparse(st.target), ast.unparse(st.iter)))
+                else:
+                    out.append(pre + 'while ' + ast.unparse(st.test) + ':')
+                flat(st.body, ind + 1)
+                if st.orelse:
+                    out.append(pre + 'else:')
+                    flat(st.orelse, ind + 1)
+            elif isinstance(st, ast.Try):
+                out.append(pre + 'try:')
+                flat(st.body, ind + 1)
+                for h in st.handlers:
+                    out.append(pre + 'except %s%s:' % (ast.unparse(h.type) if h.type else '',
+                                                      ' as ' + h.name if h.name else ''))
+                    flat(h.body, ind + 1)
+                if st.orelse:
+                    out.append(pre + 'else:')
+                    flat(st.orelse, ind + 1)
+                if st.finalbody:
+                    out.append(pre + 'finally:')
+                    flat(st.finalbody, ind + 1)
+            elif isinstance(st, ast.With):
+                out.append(pre + 'with ' + ', '.join(ast.unparse(i) for i in st.items) + ':')
+                flat(st.body, ind + 1)
+            else:
+                out.append(pre + ast.unparse(st))
+    flat(f2.body, 0)
+    return normalise_shapes(out)
+
+
+# behaviour-preserving spellings of the same statements, rewritten to the one the model transcribes
+_EQUIV = [
+    # the Group-mode prologue of Fold.glomit: flag-then-set  ==  one boolean expression, then `if`
+    (['v0 = a1[MODE] is GROUP and a1.get(CUR_AGG) is None', 'if v0:', '  a1[CUR_AGG] = self'],
+     ['v0 = False', 'if a1[MODE] is GROUP and a1.get(CUR_AGG) is None:', '  a1[CUR_AGG] = self', '  v0 = True']),
+    # `a, b = x, y` == `a = x; b = y` when y does not mention a  (the locals of _fold)
+    (['v0 = self.init()', 'v1 = self.op'], ['v0, v1 = (self.init(), self.op)']),
+]
+
+
+def normalise_shapes(lines):
+    for old, new in _EQUIV:
+        n = len(old)
+        for i in range(len(lines) - n + 1):
+            if lines[i:i + n] == old:
+                lines = lines[:i] + new + lines[i + n:]
+                break
+    return lines
+
+
+def self_writes(fn):
+    """targets written on `self` (attribute stores, setattr / __dict__ access, augmented assignment)"""
+    out = []
+    for n in ast.walk(fn):
+        if isinstance(n, ast.Attribute) and isinstance(n.ctx, (ast.Store, ast.Del)) \
+                and isinstance(n.value, ast.Name) and n.value.id == 'self':
+            out.append('self.' + n.attr)
+        elif isinstance(n, ast.Call) and isinstance(n.func, ast.Name) and n.func.id in ('setattr', 'delattr') \
+                and n.args and isinstance(n.args[0], ast.Name) and n.args[0].id == 'self':
+            out.append('%s(self, ...)' % n.func.id)
+        elif isinstance(n, ast.Attribute) and n.attr == '__dict__' and isinstance(n.value, ast.Name) \
+                and n.value.id == 'self':
+            out.append('self.__dict__')
+        elif isinstance(n, ast.Call) and isinstance(n.func, ast.Name) and n.func.id == 'vars' \
+                and n.args and isinstance(n.args[0], ast.Name) and n.args[0].id == 'self':
+            out.append('vars(self)')
+    return out
+
+
 def extract(ctx):
     P = ctx['P']
     red = ctx['src_tree']('reduction.py')
     core = ctx['src_tree']('core.py')
     classes = ['Fold', 'Sum', 'Count', 'Flatten', 'Merge']
 
-    # --- except clauses around `self._fold(target_iter(...))` in Fold.glomit
+    # --- except clauses of the try in Fold.glomit that calls target_iter
     catch = []
     glomit = _method(_cls(red, 'Fold'), 'glomit')
     if glomit is None:
@@ -55,8 +196,7 @@ def extract(ctx):
     else:
         found = False
         for n in ast.walk(glomit):
-            if isinstance(n, ast.Try) and any('_fold' in ast.unparse(s) and 'target_iter' in ast.unparse(s)
-                                             for s in n.body):
+            if isinstance(n, ast.Try) and any('target_iter' in ast.unparse(s) for s in n.body):
                 found = True
                 for hd in n.handlers:
                     raised = None
@@ -66,25 +206,51 @@ def extract(ctx):
                     for c in ctx['exc_names'](hd.type):
                         catch.append((c, raised or '<reraise>'))
         if not found:
-            P.add('Fold.glomit: no try block around self._fold(target_iter(...))')
+            P.add('Fold.glomit: no try block around a target_iter(...) call')
 
-    # --- where is init() called
-    init_calls = []
+    # --- every statement of every method of the five classes, of flatten(), merge() and target_iter
+    bodies, methods, selfw = [], [], []
     for cn in classes:
         c = _cls(red, cn)
         if c is None:
             P.add('class %s not found' % cn)
             continue
-        for fn in c.body:
-            if not isinstance(fn, ast.FunctionDef):
-                continue
-            for n in ast.walk(fn):
-                if isinstance(n, ast.Call):
-                    src = ast.unparse(n.func)
-                    if src in ('self.init', 'init'):
-                        init_calls.append('%s.%s' % (cn, fn.name))
-                        break
-
+        members = []
+        for m in c.body:
+            if isinstance(m, (ast.FunctionDef, ast.AsyncFunctionDef)):
+                members.append(m.name)
+                if m.name == '__repr__':
+                    continue
+                bodies.append(('%s.%s' % (cn, m.name), canon_body(m)))
+                if m.name != '__init__':
+                    selfw += ['%s.%s: %s' % (cn, m.name, w) for w in self_writes(m)]
+            elif isinstance(m, ast.Expr) and isinstance(m.value, ast.Constant) and isinstance(m.value.value, str):
+                pass                                              # docstring
+            else:
+                members.append('<%s>' % ast.unparse(m))           # class-level statement
+        methods.append((cn, members))
+        bases = [ast.unparse(b) for b in c.bases]
+        methods.append((cn + '.__bases__', bases))
+    # --- what the module defines at top level (a new def / class / monkey-patch shows here)
+    module = []
+    for n in red.body:
+        if isinstance(n, (ast.Import, ast.ImportFrom)):
+            continue
+        if isinstance(n, (ast.ClassDef, ast.FunctionDef, ast.AsyncFunctionDef)):
+            module.append(n.name)
+        elif isinstance(n, ast.Expr) and isinstance(n.value, ast.Constant) and isinstance(n.value.value, str):
+            continue
+        else:
+            module.append('<%s>' % ' '.join(ast.unparse(n).split())[:80])
+    fe = _cls(red, 'FoldError')
+    if fe is None:
+        P.add('class FoldError not found')
+    else:
+        methods.append(('FoldError.__bases__', [ast.unparse(b) for b in fe.bases]))
+        methods.append(('FoldError', [m.name if isinstance(m, ast.FunctionDef) else '<%s>' % ast.unparse(m)
+                                      for m in fe.body
+                                      if not (isinstance(m, ast.Expr) and isinstance(m.value, ast.Constant))
+                                      and not isinstance(m, ast.Pass)]))
     # --- constructor defaults and what is handed to Fold.__init__
     defaults, super_args = [], []
     for cn in classes:
@@ -99,71 +265,16 @@ def extract(ctx):
             P.add('%s.__init__: no super().__init__(...) call with keywords' % cn)
         for k, v in (sk or []):
             super_args.append((cn, k, v))
-    # Flatten's 'lazy' test and Merge's op defaulting / lookup
-    ctor_logic = []
-    fl = _method(_cls(red, 'Flatten'), '__init__')
-    if fl is not None:
-        for n in fl.body:
-            if isinstance(n, ast.If):
-                ctor_logic.append(('Flatten', ast.unparse(n.test),
-                                   '; '.join(ast.unparse(s) for s in n.body)))
-    mg = _method(_cls(red, 'Merge'), '__init__')
-    if mg is not None:
-        for n in mg.body:
-            if isinstance(n, ast.If):
-                ctor_logic.append(('Merge', ast.unparse(n.test),
-                                   '; '.join(ast.unparse(s) for s in n.body)))
-
-    # --- the loop statement of each _fold, and Flatten's lazy branch
-    loops = []
-    for cn in ('Fold', 'Merge'):
-        fn = _method(_cls(red, cn), '_fold')
-        if fn is None:
-            P.add('%s._fold not found' % cn)
-            continue
-        pre = [ast.unparse(s) for s in fn.body if isinstance(s, ast.Assign)]
-        fors = [s for s in fn.body if isinstance(s, ast.For)]
-        rets = [ast.unparse(s) for s in fn.body if isinstance(s, ast.Return)]
-        if len(fors) != 1 or len(fors[0].body) != 1:
-            P.add('%s._fold: expected exactly one for loop with a one-statement body' % cn)
-            continue
-        loops.append((cn + '._fold', 'init', '; '.join(pre)))
-        loops.append((cn + '._fold', 'for', 'for %s in %s' % (ast.unparse(fors[0].target), ast.unparse(fors[0].iter))))
-        loops.append((cn + '._fold', 'body', ast.unparse(fors[0].body[0])))
-        loops.append((cn + '._fold', 'return', '; '.join(rets)))
-    ff = _method(_cls(red, 'Flatten'), '_fold')
-    if ff is None:
-        P.add('Flatten._fold not found')
-    else:
-        for s in ff.body:
-            if isinstance(s, ast.If):
-                loops.append(('Flatten._fold', 'if ' + ast.unparse(s.test), '; '.join(ast.unparse(x) for x in s.body)))
-            else:
-                loops.append(('Flatten._fold', 'else', ast.unparse(s)))
-
-    # --- flatten(): guards and spec construction
-    flat = []
     fn = ctx['find_def'](red, 'flatten')
     if fn is None:
         P.add('flatten() not found')
     else:
-        for s in fn.body:
-            if isinstance(s, ast.If) and 'levels' in ast.unparse(s.test):
-                flat.append(('if ' + ast.unparse(s.test), '; '.join(ast.unparse(x).split('(')[0] for x in s.body)))
-            elif isinstance(s, (ast.Assign, ast.AugAssign)) and ast.unparse(s.targets[0] if isinstance(s, ast.Assign) else s.target) == 'spec':
-                flat.append(('spec', ast.unparse(s)))
-            elif isinstance(s, ast.Return):
-                flat.append(('return', ast.unparse(s)))
+        bodies.append(('flatten', canon_body(fn)))
     mfn = ctx['find_def'](red, 'merge')
-    mflat = []
     if mfn is None:
         P.add('merge() not found')
     else:
-        for s in mfn.body:
-            if isinstance(s, ast.Assign) and ast.unparse(s.targets[0]) == 'spec':
-                mflat.append(('spec', ast.unparse(s)))
-            elif isinstance(s, ast.Return):
-                mflat.append(('return', ast.unparse(s)))
+        bodies.append(('merge', canon_body(mfn)))
 
     # --- kwargs.pop(name, default) in flatten() / merge()
     fn_defaults = []
@@ -196,7 +307,7 @@ def extract(ctx):
             excluded = []
 
     # --- target_iter (glom/grouping.py): the lookup is outside the try, the handler call inside
-    titer, titer_catch = [], []
+    titer_catch = []
     try:
         grp = ctx['src_tree']('grouping.py')
     except Exception:
@@ -205,41 +316,27 @@ def extract(ctx):
     if tfn is None:
         P.add('grouping.target_iter not found')
     else:
-        for st in tfn.body:
-            if isinstance(st, ast.Assign):
-                titer.append(('assign', ast.unparse(st)))
-            elif isinstance(st, ast.Try):
-                titer.append(('try', '; '.join(ast.unparse(x) for x in st.body)))
+        bodies.append(('target_iter', canon_body(tfn)))
+        for st in ast.walk(tfn):
+            if isinstance(st, ast.Try):
                 for hd in st.handlers:
                     raised = None
                     for x in hd.body:
                         if isinstance(x, ast.Raise) and isinstance(x.exc, ast.Call):
                             raised = ast.unparse(x.exc.func)
                     for c in ctx['exc_names'](hd.type):
-                        titer.append(('except ' + c, 'raise %s' % raised if raised else '<reraise>'))
                         titer_catch.append((c, raised or '<reraise>'))
-                if st.orelse or st.finalbody:
-                    P.add('grouping.target_iter: try statement with else/finally not recognised')
-            elif isinstance(st, ast.Return):
-                titer.append(('return', ast.unparse(st)))
-            elif isinstance(st, ast.Expr) and isinstance(st.value, ast.Constant):
-                pass                                    # docstring
-            else:
-                P.add('grouping.target_iter: statement not recognised: %s' % ast.unparse(st)[:60])
-                titer = []
-                break
 
     T3 = 'List (String × String × String)'
+    TB = 'List (String × List String)'
     return [('RedFacts', 'decision logic of glom/reduction.py: Fold, Sum, Count, Flatten, Merge, flatten(), merge()',
              [('redFoldCatch', 'List (String × String)', catch),
-              ('redInitCalls', 'List String', init_calls),
               ('redDefaults', T3, defaults),
               ('redSuperArgs', T3, super_args),
-              ('redCtorLogic', T3, ctor_logic),
-              ('redFoldBodies', T3, loops),
-              ('redFlattenFn', 'List (String × String)', flat),
-              ('redMergeFn', 'List (String × String)', mflat),
               ('redFnDefaults', T3, fn_defaults),
-              ('redTargetIter', 'List (String × String)', titer),
+              ('redBodies', TB, bodies),
+              ('redMethods', TB, methods),
+              ('redModule', 'List String', module),
+              ('redSelfWrites', 'List String', selfw),
               ('redTargetIterCatch', 'List (String × String)', titer_catch),
               ('redAbsIterExcluded', 'List String', excluded)])]
